@@ -108,3 +108,13 @@ def _f2(v):
     if "ok" in a and "ok" in b and isinstance(a["ok"], str) and isinstance(b["ok"], str):
         return _f2_rewrite(a["ok"]) == b["ok"] or _f2_rewrite(a["ok"])[:8] == b["ok"][:8] and "#" in b["ok"]
     return False
+
+
+@matcher("F12a_replay_status_from_first_page_only")
+def _f12a(v):
+    return v["oracle"] == "C17.replayed_log_emitted" and v["detail"].get("first_page_ops") == 1
+
+
+@matcher("F12b_track_replay_skipped_when_operation_raises")
+def _f12b(v):
+    return v["oracle"] == "C17.new_log_suppressed" and bool(v["detail"].get("errors_delivered_before"))
